@@ -489,6 +489,42 @@ pub fn miri_syn_only(seed: u64, n: usize) -> CaseOut {
     out
 }
 
+/// Writes a seed corpus for the libFuzzer target of /verif/fuzz: datagrams emitted by real nodes in seeded E1
+/// traces, each prefixed with the byte that selects the victim's state.
+pub fn emit_corpus(dir: &str, seed: u64) {
+    let _ = std::fs::create_dir_all(dir);
+    let rt = paused_rt();
+    let mut n = 0;
+    for i in 0..24u64 {
+        let tseed = mix3(seed, i, 0xC0);
+        let mut crng = rng_from(mix(tseed, 7));
+        let mut cfg = SimCfg::generate(if i % 2 == 0 { Profile::Replication } else { Profile::Membership }, &mut crng);
+        cfg.steps = 60;
+        cfg.big_values = false;
+        let mut w = World::new(cfg, tseed);
+        rt.block_on(async {
+            for s in 0..w.slots.len() {
+                w.start(s);
+            }
+            for _ in 0..60 {
+                if w.aborted {
+                    break;
+                }
+                w.random_step().await;
+            }
+        });
+        for (k, d) in w.history.iter().enumerate().filter(|(k, _)| k % 4 == 0) {
+            let mut b = vec![(i % 4) as u8];
+            b.extend_from_slice(d);
+            if b.len() < 4000 {
+                let _ = std::fs::write(format!("{dir}/seed-{i}-{k}"), &b);
+                n += 1;
+            }
+        }
+    }
+    println!("wrote {n} corpus files to {dir}");
+}
+
 pub fn check(args: &Args) -> Outcome {
     let mut ev = Evidence::new(args, "exploration");
     if args.has("--miri") {
